@@ -163,6 +163,20 @@ func shrinkInput(in *Input, fails func(*Input) bool, budget time.Duration) (*Inp
 		// knobs
 		for _, f := range []func(c *Input) bool{
 			func(c *Input) bool { ch := len(c.Cfg.SitesOff) > 0; c.Cfg.SitesOff = nil; return ch },
+			func(c *Input) bool {
+				if len(c.Cfg.FineSites) < 2 {
+					return false
+				}
+				c.Cfg.FineSites = c.Cfg.FineSites[:len(c.Cfg.FineSites)/2]
+				return true
+			},
+			func(c *Input) bool {
+				if len(c.Cfg.FineSites) < 2 {
+					return false
+				}
+				c.Cfg.FineSites = c.Cfg.FineSites[len(c.Cfg.FineSites)/2:]
+				return true
+			},
 			func(c *Input) bool { ch := c.Cfg.CacheSize != largeCache; c.Cfg.CacheSize = largeCache; return ch },
 			func(c *Input) bool { ch := c.Cfg.BatchSize != 4096; c.Cfg.BatchSize = 4096; return ch },
 			func(c *Input) bool {
